@@ -1,13 +1,15 @@
 //! C02 — every operation completes exactly once, with its own result.
 //!
 //! Correspondence harness + implementation-only monitors on the REAL `compio_driver::Proactor`
-//! (fusion build: io_uring and polling selectable per case, submission/event queue capacity per case).
+//! (fusion build: io_uring and polling selectable per case, submission/event queue capacity per case) and,
+//! in "future mode" (`cfg … fut`), on the REAL `compio_runtime::Runtime::submit` futures (`Submit`), polled by
+//! the harness like an executor would: only after the task's waker was woken.
 //!
 //! A case is a little program over *channels* (pipes, socket pairs, memfd files) whose far ends are
 //! driven by the harness with plain system calls, so the harness decides which operation becomes
 //! ready when.  Lines (one output line each, reproduced by the Lean driver `c02d`):
 //!
-//!   cfg <poll|iour> <cap>            build the Proactor
+//!   cfg <poll|iour> <cap> [fut]      build the Proactor (resp. a Runtime around it)
 //!   rpipe c | wpipe c | sock c | file c <hex>      create channel c
 //!   feed c <hex> | eof c | hup c | fill c | drain c   harness-side system calls on the far end
 //!   push k [lazy] <op…>              Proactor::push; then scan
@@ -37,10 +39,10 @@ use std::{
     time::Duration,
 };
 
-use compio_buf::{BufResult, IntoInner};
+use compio_buf::{BufResult, IntoInner, SetLenExt};
 use compio_driver::{
-    AsyncifyPool, Cancel, DriverType, Key, OpCode, Proactor, PushEntry,
-    op::{Asyncify, Interest, PollOnce, Read, ReadAt, Recv, RecvFlags, Send, SendFlags, Splice, SpliceFlags, Write},
+    AsyncifyPool, BufferPool, BufferRef, Cancel, DriverType, Key, OpCode, Proactor, PushEntry, TakeBuffer,
+    op::{Asyncify, Interest, PollOnce, Read, ReadAt, ReadMulti, Recv, RecvFlags, Send, SendFlags, Splice, SpliceFlags, Write},
 };
 use compio_runtime::Runtime;
 use hx_common::{Case, Exec, Rng, hex, run_harness, unhex};
@@ -193,6 +195,10 @@ impl Backend {
 
 trait Pending {
     fn pop(self: Box<Self>, b: &mut Backend) -> Result<Done, Box<dyn Pending>>;
+    /// multishot operations: `Proactor::pop_multishot`
+    fn pop_item(&self, _b: &mut Backend) -> Option<Done> {
+        None
+    }
     fn waker(&self, b: &mut Backend, w: &Waker);
     fn cancel(self: Box<Self>, b: &mut Backend) -> Option<Done>;
     fn token(&self, b: &mut Backend) -> Option<Cancel>;
@@ -219,6 +225,58 @@ impl<T: OpCode + 'static> Pending for Held<T> {
     fn cancel(self: Box<Self>, b: &mut Backend) -> Option<Done> {
         let Held { key, fin } = *self;
         b.pro().cancel(key).map(fin)
+    }
+
+    fn token(&self, b: &mut Backend) -> Option<Cancel> {
+        Some(b.pro().register_cancel(&self.key))
+    }
+}
+
+/// a multishot operation on the bare Proactor (`pop_multishot` items, then `pop_with_extra`)
+struct HeldMulti<T: OpCode + TakeBuffer<Buffer = BufferRef> + 'static> {
+    key: Key<T>,
+    pool: BufferPool,
+}
+
+fn buffer_done(res: std::io::Result<usize>, buf: Option<BufferRef>) -> Done {
+    let res = canon(res);
+    let mut complaints = vec![];
+    let data = match (&res, buf) {
+        (Ok(n), Some(mut b)) => {
+            unsafe { b.advance_to(*n) };
+            b.to_vec()
+        }
+        (Ok(0), None) | (Err(_), _) => vec![],
+        (Ok(n), None) => {
+            complaints.push(format!("C02:own-result {n} bytes reported but no buffer came with them"));
+            vec![]
+        }
+    };
+    Done { res, data: Some(data), complaints }
+}
+
+impl<T: OpCode + TakeBuffer<Buffer = BufferRef> + 'static> Pending for HeldMulti<T> {
+    fn pop(self: Box<Self>, b: &mut Backend) -> Result<Done, Box<dyn Pending>> {
+        let HeldMulti { key, pool } = *self;
+        match b.pro().pop_with_extra(key) {
+            PushEntry::Ready((BufResult(res, op), _extra)) => Ok(buffer_done(res, op.take_buffer())),
+            PushEntry::Pending(key) => Err(Box::new(HeldMulti { key, pool })),
+        }
+    }
+
+    fn pop_item(&self, b: &mut Backend) -> Option<Done> {
+        let BufResult(res, extra) = b.pro().pop_multishot(&self.key)?;
+        let buf = extra.buffer_id().ok().and_then(|id| self.pool.take(id).ok().flatten());
+        Some(buffer_done(res, buf))
+    }
+
+    fn waker(&self, b: &mut Backend, w: &Waker) {
+        b.pro().update_waker(&self.key, w);
+    }
+
+    fn cancel(self: Box<Self>, b: &mut Backend) -> Option<Done> {
+        let HeldMulti { key, .. } = *self;
+        b.pro().cancel(key).map(|BufResult(res, op)| buffer_done(res, op.take_buffer()))
     }
 
     fn token(&self, b: &mut Backend) -> Option<Cancel> {
@@ -355,6 +413,7 @@ enum Kind {
     Job(Result<usize, i32>),
     ReadAt(usize, u64, usize),
     Splice(usize, usize, usize),
+    RMulti(usize),
 }
 
 fn parse_kind(w: &[&str]) -> Option<Kind> {
@@ -371,6 +430,7 @@ fn parse_kind(w: &[&str]) -> Option<Kind> {
         ["job", "err", v] => Kind::Job(Err(n(v)? as i32)),
         ["readat", c, off, cap] => Kind::ReadAt(n(c)?, n(off)? as u64, n(cap)?),
         ["splice", a, b, l] => Kind::Splice(n(a)?, n(b)?, n(l)?),
+        ["rmulti", c] => Kind::RMulti(n(c)?),
         _ => return None,
     })
 }
@@ -492,6 +552,16 @@ impl World {
                     },
                 )
             }
+            Kind::RMulti(c) => {
+                let fd = self.near(c);
+                let p = self.p.pro();
+                let pool = p.buffer_pool().expect("buffer pool");
+                let op = ReadMulti::new(Fdw(fd), &pool, 0).expect("ReadMulti::new");
+                match p.push(op) {
+                    PushEntry::Pending(key) => Pushed::Pending(Box::new(HeldMulti { key, pool }), None),
+                    PushEntry::Ready(BufResult(res, op)) => Pushed::Ready(buffer_done(res, op.take_buffer())),
+                }
+            }
             Kind::Job(res) => {
                 self.job_token += 1;
                 let token = 0xC0DE_0000_0000u64 + ((id as u64) << 16) + self.job_token;
@@ -539,7 +609,7 @@ impl World {
         }
         let kind = self.ops[&id].kind.clone();
         match (&kind, &d.res) {
-            (Kind::Read(c, _) | Kind::Recv(c, _), Ok(_)) => {
+            (Kind::Read(c, _) | Kind::Recv(c, _) | Kind::RMulti(c), Ok(_)) => {
                 self.chans.get_mut(c).unwrap().segments.push(d.data.clone().unwrap_or_default());
             }
             (Kind::Write(c, data) | Kind::Send(c, data), Ok(n)) => {
@@ -615,7 +685,7 @@ impl World {
                 }
                 let w = self.wakes(id);
                 // waker monitor: a registered waker is woken exactly once by the completion
-                if self.ops[&id].waker.is_some() && w != 1 {
+                if self.ops[&id].waker.is_some() && w != 1 && !matches!(self.ops[&id].kind, Kind::RMulti(_)) {
                     ex.fail("C02:wake", format!("op {id} completed, its registered waker was woken {w} times"));
                 }
                 let s = self.account(id, d, ex);
@@ -625,7 +695,7 @@ impl World {
                 self.ops.get_mut(&id).unwrap().pending = Some(pd);
                 let w = self.wakes(id);
                 self.ops.get_mut(&id).unwrap().polled_wakes = w;
-                if w != 0 && !self.fut {
+                if w != 0 && !self.fut && !matches!(self.ops[&id].kind, Kind::RMulti(_)) {
                     ex.fail("C02:wake", format!("op {id} is still pending but its waker was woken {w} times"));
                 }
                 None
@@ -633,10 +703,32 @@ impl World {
         }
     }
 
+    /// the multishot items of one key that are queued right now: `k+ok:n:data`
+    fn pop_items(&mut self, id: usize, ex: &mut Exec) -> Vec<String> {
+        let mut out = vec![];
+        loop {
+            let item = match self.ops.get(&id).and_then(|o| o.pending.as_ref()) {
+                Some(pd) => pd.pop_item(&mut self.p),
+                None => None,
+            };
+            let Some(d) = item else { break };
+            let s = self.account(id, d, ex);
+            out.push(format!("{id}+{s}"));
+            if out.len() > 64 {
+                ex.fail("C02:duplicated", format!("op {id}: more than 64 multishot items in one scan"));
+                break;
+            }
+        }
+        out
+    }
+
     fn scan(&mut self, ex: &mut Exec) -> String {
         let ids = self.live.clone();
         let mut out = vec![];
         for id in ids {
+            if matches!(self.ops[&id].kind, Kind::RMulti(_)) {
+                out.extend(self.pop_items(id, ex));
+            }
             // like an executor: a future is polled again only after its waker was woken
             if self.fut && self.wakes(id) <= self.ops[&id].polled_wakes {
                 continue;
@@ -747,7 +839,7 @@ impl World {
             }
             let kind = self.ops[&id].kind.clone();
             let ready = match &kind {
-                Kind::Read(c, _) | Kind::Recv(c, _) | Kind::POnce(c, true) => poll_ready(self.near(*c), libc::POLLIN),
+                Kind::Read(c, _) | Kind::Recv(c, _) | Kind::POnce(c, true) | Kind::RMulti(c) => poll_ready(self.near(*c), libc::POLLIN),
                 Kind::Write(c, _) | Kind::Send(c, _) | Kind::POnce(c, false) => poll_ready(self.near(*c), libc::POLLOUT),
                 Kind::Splice(a, b, _) => poll_ready(self.near(*a), libc::POLLIN) && poll_ready(self.near(*b), libc::POLLOUT),
                 _ => false,
@@ -1033,7 +1125,7 @@ fn exec_inner(case: &Case) -> Exec {
                                 None => {
                                     wd.ops.get_mut(&id).unwrap().dropped = true;
                                     let chans: Vec<usize> = match &wd.ops[&id].kind {
-                                        Kind::Read(c, _) | Kind::Recv(c, _) | Kind::Write(c, _) | Kind::Send(c, _) => vec![*c],
+                                        Kind::Read(c, _) | Kind::Recv(c, _) | Kind::Write(c, _) | Kind::Send(c, _) | Kind::RMulti(c) => vec![*c],
                                         Kind::Splice(a, b, _) => vec![*a, *b],
                                         _ => vec![],
                                     };
@@ -1115,10 +1207,12 @@ fn gen_random(rng: &mut Rng, idx: usize) -> Case {
     let iour = rng.chance(1, 2);
     let cap = *rng.pick(&[1u32, 2, 4, 1024]);
     let nch = rng.range(1, 4) as usize;
-    let exact = !iour && cap as usize >= nch + 1;
+    // a quarter of the cases drive `Submit` futures of compio-runtime instead of the bare Proactor
+    let fut = rng.chance(1, 4);
+    let exact = !iour && !fut && cap as usize >= nch + 1;
     let mut g = Gen {
         rng,
-        lines: vec![format!("cfg {} {}", if iour { "iour" } else { "poll" }, cap)],
+        lines: vec![format!("cfg {} {}{}", if iour { "iour" } else { "poll" }, cap, if fut { " fut" } else { "" })],
         iour,
         exact,
         next_id: 0,
@@ -1293,7 +1387,7 @@ fn gen_random(rng: &mut Rng, idx: usize) -> Case {
             let all: Vec<usize> = g.pending.iter().chain(g.lazy.iter()).copied().collect();
             if !all.is_empty() {
                 let id = *g.rng.pick(&all);
-                if g.rng.chance(1, 2) {
+                if g.rng.chance(1, 2) && !fut {
                     g.lines.push(format!("ctoken {id}"));
                 } else {
                     g.lines.push(format!("cancel {id}"));
@@ -1314,8 +1408,9 @@ fn gen_random(rng: &mut Rng, idx: usize) -> Case {
 /// several operations on the SAME descriptor and direction, fed in bursts: FIFO on the polling driver
 fn gen_fifo(rng: &mut Rng, idx: usize) -> Case {
     let cap = *rng.pick(&[1u32, 2, 4, 1024]);
-    let exact = cap >= 4;
-    let mut lines = vec![format!("cfg poll {cap}")];
+    let fut = rng.chance(1, 4);
+    let exact = cap >= 4 && !fut;
+    let mut lines = vec![format!("cfg poll {cap}{}", if fut { " fut" } else { "" })];
     let kind = *rng.pick(&["rpipe", "sock", "wpipe"]);
     lines.push(format!("{kind} 0"));
     let n = rng.range(2, 6) as usize;
@@ -1414,7 +1509,7 @@ fn gen_bidir(rng: &mut Rng, idx: usize) -> Case {
 fn gen_overflow(rng: &mut Rng, idx: usize) -> Case {
     let cap = *rng.pick(&[1u32, 2, 4]);
     let n = rng.range(cap as u64 + 1, cap as u64 * 2 + 3) as usize;
-    let mut lines = vec![format!("cfg iour {cap}")];
+    let mut lines = vec![format!("cfg iour {cap}{}", if rng.chance(1, 3) { " fut" } else { "" })];
     let mut seq = 0u8;
     for c in 0..n {
         lines.push(format!("rpipe {c}"));
@@ -1489,7 +1584,8 @@ fn gen_splice(rng: &mut Rng, idx: usize, order: u64) -> Case {
 fn gen_jobs(rng: &mut Rng, idx: usize) -> Case {
     let iour = rng.chance(1, 2);
     let cap = *rng.pick(&[1u32, 2, 4, 1024]);
-    let mut lines = vec![format!("cfg {} {cap}", if iour { "iour" } else { "poll" }), "rpipe 0".into()];
+    let fut = if rng.chance(1, 3) { " fut" } else { "" };
+    let mut lines = vec![format!("cfg {} {cap}{fut}", if iour { "iour" } else { "poll" }), "rpipe 0".into()];
     let n = rng.range(2, 4) as usize;
     for id in 0..n {
         if rng.chance(4, 5) {
@@ -1524,6 +1620,127 @@ fn gen_jobs(rng: &mut Rng, idx: usize) -> Case {
     Case { name: format!("jobs{idx}"), lines }
 }
 
+/// all distinct orderings of a small multiset of harness actions around a fixed set of pending operations:
+/// two reads queued on one pipe, one read on a second pipe, one blocked write; actions = two feeds of the
+/// first pipe, one feed of the second, one drain, three polls (7!/(2!·3!) = 420 orders per configuration)
+fn gen_enum(tier: &str, rng: &mut Rng) -> Vec<Case> {
+    fn perms(items: &mut Vec<u8>, k: usize, out: &mut Vec<Vec<u8>>) {
+        if k == items.len() {
+            out.push(items.clone());
+            return;
+        }
+        let mut seen = vec![];
+        for i in k..items.len() {
+            if seen.contains(&items[i]) {
+                continue;
+            }
+            seen.push(items[i]);
+            items.swap(k, i);
+            perms(items, k + 1, out);
+            items.swap(k, i);
+        }
+    }
+    let mut orders = vec![];
+    perms(&mut vec![0, 0, 1, 2, 3, 3, 3], 0, &mut orders);
+    let mut cases = vec![];
+    let cfgs: Vec<(&str, u32, &str)> = vec![
+        ("poll", 1024, ""), ("poll", 1, ""), ("poll", 2, " fut"), ("iour", 1, ""), ("iour", 2, ""), ("iour", 1024, " fut"),
+    ];
+    for (ci, (drv, cap, fut)) in cfgs.iter().enumerate() {
+        for (oi, order) in orders.iter().enumerate() {
+            // quick: a random tenth of the orders
+            if tier != "thorough" && !rng.chance(1, 10) {
+                continue;
+            }
+            let exact = *drv == "poll" && *cap >= 4 && fut.is_empty();
+            let p = if exact { "poll" } else { "settle" };
+            let mut lines = vec![format!("cfg {drv} {cap}{fut}"), "rpipe 0".into(), "rpipe 1".into(), "wpipe 2".into(), "fill 2".into()];
+            lines.push("push 0 read 0 3".into());
+            if *drv == "poll" {
+                // a second reader on the same descriptor: FIFO (io_uring gives no order there)
+                lines.push("push 1 read 0 3".into());
+            }
+            lines.push("push 2 read 1 4".into());
+            lines.push("push 3 write 2 c1c2c3".into());
+            lines.push("waker 0".into());
+            lines.push("waker 3".into());
+            let mut fed0 = 0u8;
+            for a in order {
+                match a {
+                    0 => {
+                        fed0 += 1;
+                        lines.push(format!("feed 0 {}", if fed0 == 1 { "0102" } else { "03040506" }));
+                        if *drv == "iour" {
+                            lines.push("settle".into());
+                            if fed0 == 1 {
+                                lines.push("push 4 read 0 3".into());
+                            }
+                        }
+                    }
+                    1 => lines.push("feed 1 2122232425".into()),
+                    2 => lines.push("drain 2".into()),
+                    _ => lines.push(p.into()),
+                }
+            }
+            lines.push("settle".into());
+            lines.push("drain 2".into());
+            cases.push(Case { name: format!("enum{ci}-{oi}"), lines });
+        }
+    }
+    cases
+}
+
+/// multishot read (`ReadMulti` with the driver's buffer pool): one item per feed on io_uring, the final
+/// completion at end of stream; a single managed read on the polling driver
+fn gen_multi(rng: &mut Rng, idx: usize) -> Case {
+    let iour = rng.chance(2, 3);
+    // the kernel ends a multishot request when the completion queue (2 x SQ entries) is full: keep the
+    // queue large enough for the at most five completions that can be pending between two scans
+    let cap = *rng.pick(&[4u32, 1024]);
+    let mut lines = vec![format!("cfg {} {cap}", if iour { "iour" } else { "poll" }), "rpipe 0".into(), "rpipe 1".into()];
+    let mut seq = 0u8;
+    let mut pay = |n: usize| -> Vec<u8> {
+        (0..n)
+            .map(|_| {
+                seq = seq.wrapping_add(1);
+                if seq == FILLER || seq == 0 {
+                    seq = 1
+                }
+                seq
+            })
+            .collect()
+    };
+    if rng.chance(1, 3) {
+        lines.push(format!("feed 0 {}", hex(&pay(rng.range(1, 5) as usize))));
+    }
+    lines.push("push 0 rmulti 0".into());
+    if rng.chance(1, 2) {
+        lines.push("waker 0".into());
+    }
+    lines.push("push 1 read 1 4".into());
+    let steps = rng.range(2, 8);
+    let mut unscanned = 0;
+    for _ in 0..steps {
+        match rng.below(5) {
+            0 | 1 | 2 => {
+                if unscanned < 4 {
+                    lines.push(format!("feed 0 {}", hex(&pay(rng.range(1, 6) as usize))));
+                    unscanned += 1;
+                }
+            }
+            3 => lines.push(format!("feed 1 {}", hex(&pay(rng.range(1, 6) as usize)))),
+            _ => {
+                lines.push("settle".into());
+                unscanned = 0;
+            }
+        }
+    }
+    lines.push("settle".into());
+    lines.push("eof 0".into());
+    lines.push("settle".into());
+    Case { name: format!("multi{idx}"), lines }
+}
+
 fn generate(tier: &str, rng: &mut Rng) -> Vec<Case> {
     let scale = if tier == "thorough" { 12 } else { 1 };
     let mut cases = vec![];
@@ -1545,6 +1762,10 @@ fn generate(tier: &str, rng: &mut Rng) -> Vec<Case> {
     for i in 0..60 * scale {
         cases.push(gen_jobs(&mut rng.fork(), i));
     }
+    for i in 0..80 * scale {
+        cases.push(gen_multi(&mut rng.fork(), i));
+    }
+    cases.extend(gen_enum(tier, &mut rng.fork()));
     cases
 }
 
